@@ -12,7 +12,7 @@ Python equivalents of various excel functions
 """
 import math
 import sys
-from decimal import Decimal, ROUND_DOWN, ROUND_HALF_UP, ROUND_UP
+from decimal import Context, Decimal, ROUND_DOWN, ROUND_HALF_UP, ROUND_UP
 from fractions import Fraction
 
 import numpy as np
@@ -306,9 +306,19 @@ def round_(number, num_digits=0):
 
 
 def _round(number, num_digits, rounding):
-    num_digits = int(num_digits)
-    quant = Decimal(f'1E{"+-"[num_digits >= 0]}{abs(num_digits)}')
-    return float(Decimal(repr(number)).quantize(quant, rounding=rounding))
+    number = Decimal(repr(number))
+    # a unit of 10^400 is already beyond every float, as is any larger one
+    num_digits = max(int(num_digits), -400)
+    if num_digits >= -number.as_tuple().exponent:
+        # nothing to round off, quantize() would need a digit for every place
+        return float(number)
+
+    # quantize() raises InvalidOperation if the result has more digits than
+    # the context (28 by default): TRUNC(123456789012345.5, 14)
+    context = Context(prec=len(number.as_tuple().digits) + 1)
+    quant = Decimal(f'1E{-num_digits}')
+    result = float(number.quantize(quant, rounding=rounding, context=context))
+    return NUM_ERROR if math.isinf(result) else result
 
 
 @excel_math_func
